@@ -60,8 +60,7 @@ func init() {
 			"all single departures compiled with -tags gontainerstub, constructor and every getter called (must panic), package excluded without the tag. non-trivial = accepted pair whose views were compared; distinct = distinct configuration",
 		Assumptions: []string{"the types-only twin universe declares the fixture types without any function or variable; a stub that needs more does not type-check against it"},
 		BudgetQuick: 240 * time.Second, BudgetThorough: 1200 * time.Second,
-		Prepare:     PrepareUniverse,
-		CaseTimeout: 900 * time.Second,
+		Prepare: PrepareUniverse,
 		Run: func(w *W) {
 			k := 2
 			if !w.Env.Quick() {
